@@ -407,9 +407,16 @@ class EngineB:
                 if self.prop == "C05":
                     return self._viol(prop, "operands_unchanged", op, i, f"{op}({self._describe(step)}) modified operand #{k} ({heap.kinds[o]}): {ch}")
                 heap.resnap(o)
-        # 4. in-place: nothing outside the receiver's group changes
+        # 4. in-place: nothing outside the receiver's group changes, and the receiver does not start to share
+        #    storage with another operand (e.g. by keeping a view of a data vector it was given)
         if spec.inplace:
             recv = operand_ids[0]
+            for o in heap.ids():
+                if o == recv or heap.find(o) == heap.find(recv):
+                    continue
+                sh = heap.shares(heap.objs[recv], heap.objs[o])
+                if sh is not None and self.prop == "C05":
+                    return self._viol(prop, "result_is_independent", op, i, f"after in-place {op}({self._describe(step)}) the receiver #{recv} shares memory with live object #{o} ({heap.kinds[o]}): {sh}")
             for o in heap.ids():
                 if heap.find(o) == heap.find(recv):
                     heap.resnap(o)
